@@ -3,7 +3,7 @@
    proofs are in Proofs/StoreProofs.v. *)
 From Coq Require Import List NArith ZArith Bool Sorted.
 From Abasic Require Import Model.Bytes Model.Num Model.Token Model.Data Model.Lexer Gen.Tables
-     Model.State Model.Eval Model.Interp Proofs.Monad Proofs.Frames Proofs.StoreProofs.
+     Model.State Model.Eval Model.Interp Proofs.Monad Proofs.Frames Proofs.StoreProofs Proofs.StoreExt Proofs.StoreBehaviour.
 Import ListNotations.
 Open Scope N_scope.
 
@@ -62,6 +62,44 @@ Check C04_run_order : forall n l, keys_sorted l ->
 Theorem C04_number : forall line n e, parse_line_number line = Some (n, e) -> n <= U64_MAX.
 Proof. exact parse_line_number_range. Qed.
 
+(* Order of entry is irrelevant, behaviourally: two sequences of numbered-line
+   entries (any texts that are edits: additions, replacements, deletions)
+   typed into a fresh interpreter that leave the same MAP leave interpreters
+   that answer every later session — LIST, RUN, immediate statements, further
+   edits, replies, breaks — with the same rows (outcome, state, drained output
+   queue, caret, message, reads; Proofs/StoreExt.v: a two-run simulation for
+   states that differ only in the internal order of the stored lines), and
+   hold the same map afterwards. *)
+Theorem C04_entry_order_irrelevant : forall fuel o ops1 ops2,
+  Forall is_edit ops1 -> Forall is_edit ops2 ->
+  let s1 := run_state fuel (fresh o) ops1 in
+  let s2 := run_state fuel (fresh o) ops2 in
+  (forall k, abs s1 k = abs s2 k) ->
+  forall ops, Forall2 orow_same (run_ops fuel s1 ops) (run_ops fuel s2 ops)
+              /\ same_program (run_state fuel s1 ops) (run_state fuel s2 ops).
+Proof. exact entry_order_irrelevant. Qed.
+
+(* non-vacuity: the two orders of entry give different internal stores *)
+Example C04_orders_differ :
+  let a := map (fun t => HLine (bs t)) ["10 PRINT 1"; "20 PRINT 2"]%string in
+  let b := map (fun t => HLine (bs t)) ["20 PRINT 2"; "10 PRINT 0"; "10 PRINT 1"]%string in
+  Forall is_edit a /\ Forall is_edit b
+  /\ st_toks (run_state 50 (fresh []) a) <> st_toks (run_state 50 (fresh []) b)
+  /\ forall k, abs (run_state 50 (fresh []) a) k = abs (run_state 50 (fresh []) b) k.
+Proof.
+  cbn zeta. split; [|split; [|split]].
+  - repeat constructor; eexists _, _, _; (split; [reflexivity | vm_compute; reflexivity]).
+  - repeat constructor; eexists _, _, _; (split; [reflexivity | vm_compute; reflexivity]).
+  - vm_compute. discriminate.
+  - intros k. unfold abs.
+    assert (Ea : st_toks (run_state 50 (fresh []) (map (fun t => HLine (bs t)) ["10 PRINT 1"; "20 PRINT 2"]%string))
+                 = [(20, [TPrint; TNumber (f64_of_Z 2)]); (10, [TPrint; TNumber (f64_of_Z 1)])]) by (vm_compute; reflexivity).
+    assert (Eb : st_toks (run_state 50 (fresh []) (map (fun t => HLine (bs t)) ["20 PRINT 2"; "10 PRINT 0"; "10 PRINT 1"]%string))
+                 = [(10, [TPrint; TNumber (f64_of_Z 1)]); (20, [TPrint; TNumber (f64_of_Z 2)])]) by (vm_compute; reflexivity).
+    rewrite Ea, Eb. cbn [toks_get].
+    destruct (N.eqb_spec 20 k), (N.eqb_spec 10 k); subst; try reflexivity; discriminate.
+Qed.
+
 (* non-vacuity: entering 20 A / 10 B / 20 / 010 C / 10 + an unterminated string leaves {10 -> C} *)
 Example C04_example :
   let ops := map (fun t => HLine (bs t)) ["20 A"; "10 B"; "20"; "010 C"; "10 """]%string in
@@ -76,3 +114,4 @@ Print Assumptions C04_list.
 Print Assumptions C04_first.
 Print Assumptions C04_run_order.
 Print Assumptions C04_number.
+Print Assumptions C04_entry_order_irrelevant.
